@@ -33,6 +33,7 @@ pub struct Stats {
     pub promotions: u64,
     pub promo_captures: u64,
     pub double_pushes: u64,
+    pub regenerated_after_unmake: u64,
     pub checks: u64,
     pub double_checks: u64,
     pub mates: u64,
@@ -54,6 +55,7 @@ impl Stats {
         self.promotions += o.promotions;
         self.promo_captures += o.promo_captures;
         self.double_pushes += o.double_pushes;
+        self.regenerated_after_unmake += o.regenerated_after_unmake;
         self.checks += o.checks;
         self.double_checks += o.double_checks;
         self.mates += o.mates;
@@ -72,6 +74,7 @@ impl Stats {
             ("promotions", super::report::i(self.promotions)),
             ("promotion_captures", super::report::i(self.promo_captures)),
             ("double_pushes", super::report::i(self.double_pushes)),
+            ("move_lists_regenerated_after_unmake", super::report::i(self.regenerated_after_unmake)),
             ("positions_in_check", super::report::i(self.checks)),
             ("double_checks", super::report::i(self.double_checks)),
             ("checkmates", super::report::i(self.mates)),
@@ -681,6 +684,43 @@ impl<'a> Walk<'a> {
                             p.replay(vec![("subtree_depth", super::report::i(depth_left - 1))]),
                         );
                         cur.board = snap.clone();
+                    }
+                }
+                Prop::C01 => {
+                    // the move list of THIS position again, right after coming back from the
+                    // child (make + whole subtree + unmake on the same live board): an undo that
+                    // restores the position only approximately shows here before any later undo
+                    // can repair it
+                    let again = eng::legal(&mut cur.board);
+                    cur.stats.regenerated_after_unmake += 1;
+                    if again != eng_moves {
+                        let mut a: Vec<Mv> = again.iter().map(|(m, _)| *m).collect();
+                        let mut b: Vec<Mv> = or_moves.clone();
+                        a.sort();
+                        b.sort();
+                        let extra: Vec<String> = a.iter().filter(|m| !b.contains(m)).map(|m| m.uci()).collect();
+                        let missing: Vec<String> = b.iter().filter(|m| !a.contains(m)).map(|m| m.uci()).collect();
+                        let mut mv = cur.moves.clone();
+                        mv.push(om.uci());
+                        let p = PathRef {
+                            seed: cur.seed,
+                            moves: &mv,
+                            depth_left,
+                        };
+                        self.sink.report(
+                            p.sig("moves-after-unmake"),
+                            format!(
+                                "legal moves at {} (seed {} + {:?}) generated again after make {} + subtree(depth {}) + unmake differ from the rules: engine-only {:?}, missing {:?}",
+                                pos.fen(),
+                                cur.seed.name,
+                                cur.moves,
+                                om.uci(),
+                                depth_left - 1,
+                                extra,
+                                missing
+                            ),
+                            p.replay(vec![("subtree_depth", super::report::i(depth_left - 1)), ("regenerate_after_unmake", J::Bool(true))]),
+                        );
                     }
                 }
                 Prop::C04 => {
